@@ -66,6 +66,10 @@ def ls(cpu, o, row):
                 v1 = cpu.MemA(address, 4)
                 v2 = cpu.MemA((address + 4) & M32, 4)
             except RefAbort:
+                # a Data Abort on either word leaves the destination registers UNKNOWN (the base is preserved)
+                for x in (t, t2):
+                    if x != n and x != 15:
+                        cpu.set_unknown(x)
                 raise
             cpu.setR(t, v1)
             cpu.setR(t2, v2)
@@ -133,8 +137,7 @@ def ldrex(cpu, o, row):
     if size == 8 and address != B.Align(address, 8):
         raise RefAbort('alignment', address, False)
     # SetExclusiveMonitors translates the address (read) before the access
-    if address == B.Align(address, size):
-        cpu.translate(address, cpu.is_priv(), False, size, True)
+    cpu.translate(address, cpu.is_priv(), False, size, True)
     if size == 8:
         # MemA[address,8] then "R[t] = if BigEndian() then value<63:32> else value<31:0>": in both byte orders Rt is
         # the word at address and Rt2 the word at address+4, each read with the current endianness
@@ -179,8 +182,8 @@ def _ldm_core(cpu, address, registers, n, wback, final, to_mode=None, unaligned=
             pcv = cpu.MemU(address, 4) if unaligned else cpu.MemA(address, 4)
     except RefAbort:
         for i in range(15):
-            if (registers >> i) & 1 and i != n:
-                cpu.set_unknown(i, to_mode)
+            if (registers >> i) & 1:
+                cpu.set_unknown(i, to_mode)      # incl. the base when it is in the list
         raise
     for i, v in loaded:
         cpu.setR(i, v, to_mode)
